@@ -37,6 +37,9 @@ pub enum OpKind {
     IndexRead,
     IndexWrite,
     CopyFromSlice,
+    AsRefSlice,
+    AsMutSlice,
+    AsMutArray,
     Resize,
     CloneOp,
     T(Trans),
@@ -133,7 +136,24 @@ pub fn expect(s: State, k: Kind, op: OpKind) -> Expect {
                 }
             }
         },
-        MutView | DerefMutWrite | IndexWrite | CopyFromSlice => {
+        AsRefSlice => {
+            if readable {
+                Expect::Permitted { run: true }
+            } else {
+                Expect::Forbidden
+            }
+        }
+        AsMutArray => match k {
+            Kind::Bytes => Expect::NotApplicable,
+            Kind::Array => {
+                if writable {
+                    Expect::Permitted { run: true }
+                } else {
+                    Expect::Forbidden
+                }
+            }
+        },
+        MutView | DerefMutWrite | IndexWrite | CopyFromSlice | AsMutSlice => {
             if writable {
                 Expect::Permitted { run: true }
             } else {
@@ -211,6 +231,9 @@ fn op_code(op: OpKind) -> Vec<String> {
         IndexRead => vec!["let _b: u8 = r[0];".into()],
         IndexWrite => vec!["r[0] = 3;".into()],
         CopyFromSlice => vec!["MutBytes::copy_from_slice(&mut r, &DATA);".into()],
+        AsRefSlice => vec!["let _v: &[u8] = AsRef::<[u8]>::as_ref(&r);".into()],
+        AsMutSlice => vec!["let _v: &mut [u8] = AsMut::<[u8]>::as_mut(&mut r);".into()],
+        AsMutArray => vec!["let _v: &mut [u8; 32] = AsMut::<[u8; 32]>::as_mut(&mut r);".into()],
         Resize => vec!["r.resize(64, 0);".into()],
         CloneOp => vec!["let _c = r.clone();".into()],
         T(t) => vec![format!("let _r2 = r.{}().unwrap();", trans_code(t))],
@@ -283,7 +306,7 @@ pub const ALL_STATES: [State; 6] = [
 
 pub fn all_ops() -> Vec<OpKind> {
     use OpKind::*;
-    let mut v = vec![ReadView, MutView, ArrayView, MutArrayView, DerefRead, DerefMutWrite, IndexRead, IndexWrite, CopyFromSlice, Resize, CloneOp];
+    let mut v = vec![ReadView, MutView, ArrayView, MutArrayView, DerefRead, DerefMutWrite, IndexRead, IndexWrite, CopyFromSlice, AsRefSlice, AsMutSlice, AsMutArray, Resize, CloneOp];
     for t in [Trans::Lock, Trans::Unlock, Trans::ToRO, Trans::ToRW, Trans::ToNA] {
         v.push(T(t));
     }
@@ -515,7 +538,7 @@ pub fn judge(p: &Program) -> Result<String, String> {
 }
 
 pub fn run(ctx: &mut Ctx) -> Result<(), Violation> {
-    ctx.rule = "Programs are GENERATED from the type-state table: cells {ReadWrite, ReadOnly, NoAccess} x {Locked, Unlocked} x {as_slice, as_mut_slice, as_array, as_mut_array, Deref read, DerefMut write, index read, index write, copy_from_slice, resize, clone, mlock, munlock, mprotect_readonly, mprotect_readwrite, mprotect_noaccess, use-after-each-transition} for HeapBytes and HeapByteArray<32>, plus {Push, Pull} x {push, pull, generic push/pull, rekey}; each cell is a fn main reaching the state through a chain of valid transitions and performing the op on a marked line; thorough adds random valid chains (1..=6 transitions) + random op. A model written from the documentation labels each program permitted / forbidden (the statement's misuse list: mutable view of ReadOnly, any byte view of NoAccess, no-access transition on Locked, use after a consuming transition, pull on Push, push on Pull) / unspecified. Oracle: rustc +nightly --error-format=json against the dryoc rlib built from /repo: forbidden => compilation fails with the PRIMARY error span on the marked line and an error code in the accepted class; permitted => compiles and runs with exit status 0; every forbidden program has a control differing only in the state reached, which must compile and run. Non-trivial: forbidden-cell program whose control compiled and ran; distinct = program hash.".into();
+    ctx.rule = "Programs are GENERATED from the type-state table: cells {ReadWrite, ReadOnly, NoAccess} x {Locked, Unlocked} x {as_slice, as_mut_slice, as_array, as_mut_array, Deref read, DerefMut write, index read, index write, copy_from_slice, AsRef<[u8]>, AsMut<[u8]>, AsMut<[u8; N]>, resize, clone, mlock, munlock, mprotect_readonly, mprotect_readwrite, mprotect_noaccess, use-after-each-transition} for HeapBytes and HeapByteArray<32>, plus {Push, Pull} x {push, pull, generic push/pull, rekey}; each cell is a fn main reaching the state through a chain of valid transitions and performing the op on a marked line; thorough adds random valid chains (1..=6 transitions) + random op. A model written from the documentation labels each program permitted / forbidden (the statement's misuse list: mutable view of ReadOnly, any byte view of NoAccess, no-access transition on Locked, use after a consuming transition, pull on Push, push on Pull) / unspecified. Oracle: rustc +nightly --error-format=json against the dryoc rlib built from /repo: forbidden => compilation fails with the PRIMARY error span on the marked line and an error code in the accepted class; permitted => compiles and runs with exit status 0; every forbidden program has a control differing only in the state reached, which must compile and run. Non-trivial: forbidden-cell program whose control compiled and ran; distinct = program hash.".into();
     ctx.assumptions = vec![
         "the installed nightly rustc is the judge; a diagnostic outside the accepted class on the marked line, or an error elsewhere, is reported as a harness error (exit 2), not a violation".into(),
         "cells that are neither listed as misuse nor documented as permitted (e.g. locking an already locked region) are recorded, never judged".into(),
